@@ -62,7 +62,7 @@ func (t *pt) String() string {
 	if t.op == "sub" {
 		extra = fmt.Sprintf(",%d,%d", t.k, t.n.Int64())
 	}
-	if t.op == "byte" || t.op == "trunc" || t.op == "quo" || t.op == "rem" || t.op == "brw" {
+	if t.op == "byte" || t.op == "trunc" || t.op == "quo" || t.op == "rem" || t.op == "brw" || t.op == "nzw" {
 		extra = fmt.Sprintf(",%d", t.k)
 	}
 	if t.op == "ld" {
@@ -288,6 +288,8 @@ func domainFacts(terms []*pt) []Fact {
 			out = append(out, Fact{E: sum.Sub(self)})
 		case "brw":
 			out = append(out, Fact{E: self}, Fact{E: linConst(1).Sub(self)})
+		case "nzw":
+			out = append(out, Fact{E: self})
 		case "rem":
 			out = append(out, Fact{E: self}, Fact{E: linConst(int64(1)<<uint(t.k) - 1).Sub(self)})
 		case "quo":
